@@ -254,3 +254,26 @@ def tags(case, r):
     if isinstance(r, dict) and r.get('chunks') and has_fatal(r['chunks']):
         t.append('fatal')
     return t
+
+
+def tail_label(term, path=''):
+    """label of the output boundary of the last primitive stage of a pipeline"""
+    idx = 0
+    for st in term:
+        idx += WIDTH.get(st[0], 1)
+    return '%s/%d' % (path, idx - 1) if term else None
+
+
+def group_outputs(case, r):
+    """for a case whose term is [group_by f inner] (inner non-empty): list of (group items, outputs of that group)
+    taken from the real boundary traces at the head and tail of the inner pipeline"""
+    t = case['term']
+    if not (len(t) == 1 and t[0][0] == 'group_by' and t[0][2]) or not r.get('bounds'):
+        return None
+    head = r['bounds'].get('/0/in')
+    tail = r['bounds'].get(tail_label(t[0][2], '/0'))
+    if head is None or tail is None:
+        return None
+    hl = {tuple(l['key']): l for l in lifetimes(head)}
+    tl = {tuple(l['key']): l for l in lifetimes(tail)}
+    return [(hl[k]['items'], tl.get(k, {'items': None})['items']) for k in hl]
